@@ -691,8 +691,8 @@ theorem create_shape_functions :
 
 /-! ### the tie to the source: the decision trees of the lookups (`Generated/ContShape.lean`, regenerated from
 `container.py` and `hdf5/h5group.py` on every run: the tests and outcomes of `Container.__contains__`,
-`LinkContainer.__contains__`, `Container.__getitem__`, `LinkContainer.__getitem__`, `H5Group.get_by_id_or_name` in the
-order of the code). Each atom has the meaning of its own Python expression (`Store/ContShape.lean`); the theorems say
+`LinkContainer.__contains__`, `Container.__getitem__`, `LinkContainer.__getitem__`, `H5Group.get_by_id_or_name` /
+`get_by_name` / `get_by_id` / `__contains__` in the order of the code). Each atom has the meaning of its own Python expression (`Store/ContShape.lean`); the theorems say
 that the code's decision trees compute the model's functions, for ALL graphs, containers and keys. -/
 
 /-- `Container.__contains__` (owning containers; keys: entity objects of any provenance, names, ids) is `contHas`:
@@ -720,6 +720,27 @@ theorem getitem_shape_link (g : Graph) (c : Cont) (hfl : c.info.flavour = .link 
 /-- `H5Group.get_by_id_or_name` is `getByIdOrName`: the id is tried first, a name may look like an id -/
 theorem h5_lookup_shape (g : Graph) (c : Cont) (x : String) :
     Gen.h5GetByIdOrName.evalLookup g c (.str x) = some (getByIdOrName g c.node x) := h5GetByIdOrName_eq g c x
+
+/-- `H5Group.get_by_name`: the link of that name of the (existing) group, else KeyError — is `getByName` -/
+theorem h5_get_by_name_shape (g : Graph) (c : Cont) (x : String) :
+    Gen.h5GetByName.evalLookup g c (.str x) = some (getByName g c.node x) := h5GetByName_eq g c x
+
+/-- `H5Group.get_by_id`: the first member in iteration order whose `entity_id` is the text, else KeyError — is
+`getById` -/
+theorem h5_get_by_id_shape (g : Graph) (c : Cont) (x : String) :
+    Gen.h5GetById.evalLookup g c (.str x) = some (getById g c.node x) := h5GetById_eq g c x
+
+/-- `H5Group.__contains__` -/
+theorem h5_contains_shape (g : Graph) (c : Cont) (x : String) :
+    Gen.h5Contains.evalHas g c (.str x) = some (.ok (getByName g c.node x).isSome) := h5Contains_eq g c x
+
+/-- the backend atoms of the container trees (`item in self._backend`, "`self._backend.get_by_id(item)` does not
+raise") mean what the code of `H5Group.__contains__` / `H5Group.get_by_id` computes -/
+theorem backend_atoms_are_h5group (g : Graph) (c : Cont) (x : String) :
+    Gen.h5Contains.evalHas g c (.str x) = some (.ok (testVal g c (.str x) .inBackend)) ∧
+    (Gen.h5GetById.evalLookup g c (.str x)).map Option.isSome = some (testVal g c (.str x) .getByIdOk) := by
+  rw [h5_contains_shape, h5_get_by_id_shape]
+  exact ⟨rfl, rfl⟩
 
 /-- so the generated tree of `Container.__contains__` itself answers, on every reachable graph and for the handle at
 the end of ANY path, whether the node is an entry of the container -/
